@@ -204,6 +204,55 @@ def run(ck, facts, tier):
     ck.check(r1, "get_calendar_by_name_py", okp, "the exported get_named_calendar is not get_calendar_by_name(name) with the name as given", "rust/calendars/calendar_py.rs",
              detail=detp, sample="get_calendar_by_name(name)")
 
+    # what Python reads back as a calendar's holidays is every holiday of every member, sorted: none dropped (the last one included)
+    import cel as cel_
+    from cel import Sym as Sym_, Rec as Rec_, vkey as vkey_
+    CALS_ = Sym_("field", "calendars")
+    hfn = "calendars::calendar_py::<impl calendars::calendar::UnionCal>::holidays"
+    rh = facts.fn(hfn)
+    if rh is None:
+        ck.fail(r1, "UnionCal::holidays(py)", "getter not found")
+    else:
+        try:
+            elem_ = lambda cont: (lambda idx: Rec_("calendars::calendar::Cal", {"holidays": Sym_("hol", idx.key()), "week_mask": Sym_("mask", idx.key())})) if vkey_(cont) == vkey_(CALS_) else None
+            me_ = Rec_("calendars::calendar::UnionCal", {"calendars": CALS_, "settlement_calendars": Sym_("field", "settlement_calendars")})
+            goth = cel_.strip_early(cel_.Ev(facts, hooks={"@elem": elem_}).apply_fn(hfn, [me_], 0))
+            step = Sym_("collect", vkey_(Sym_("m", "union", vkey_(Sym_("acc")), (vkey_(Sym_("hol", cel_.Poly.atom("q0").key())),))))
+            fold_ = Sym_("fold", vkey_(CALS_), vkey_(Sym_("call", "indexmap::IndexSet::<T>::new", ())), vkey_(step))
+            wanth = Sym_("ctor", "Ok", Sym_("collect", vkey_(Sym_("mut", "sort", vkey_(fold_), ()))))
+            ck.check(r1, "UnionCal::holidays(py)", vkey_(goth) == vkey_(wanth), "the holidays a union hands to Python are not the sorted union of every member's holidays: %s" % cel_.vfmt(goth)[:300],
+                     "%s:%d" % (rh["file"], rh["line"]), sample="sorted(union of member holidays)")
+        except cel_.Unsupported as e_:
+            ck.fail(r1, "UnionCal::holidays(py)", "rule could not be established (%s)" % e_, "%s:%d" % (rh["file"], rh["line"]))
+    for ty_, want_ in (("Cal", None), ("NamedCal", "union")):
+        gfn = "calendars::calendar_py::<impl calendars::calendar::%s>::holidays" % ty_
+        rg = facts.fn(gfn)
+        if rg is None:
+            ck.fail(r1, "%s::holidays(py)" % ty_, "getter not found")
+            continue
+        try:
+            if ty_ == "Cal":
+                gotg = cel_.strip_early(cel_.Ev(facts).apply_fn(gfn, [Rec_("calendars::calendar::Cal", {"holidays": Sym_("field", "holidays"), "week_mask": Sym_("field", "week_mask")})], 0))
+                def walk_(k):
+                    # walking a stored collection element by element and collecting it again is the collection
+                    if isinstance(k, tuple):
+                        if len(k) == 5 and k[:2] == ("sym", "m") and not k[4]:
+                            if k[2] == "collect":
+                                return ("sym", "collect", walk_(k[3]))
+                            if k[2] in ("into_iter", "iter", "cloned", "copied", "clone"):
+                                return walk_(k[3])
+                        return tuple(walk_(x_) for x_ in k)
+                    return k
+                okg = walk_(vkey_(gotg)) == vkey_(Sym_("ctor", "Ok", Sym_("collect", vkey_(Sym_("field", "holidays")))))
+            else:
+                gotg = cel_.strip_early(cel_.Ev(facts, hooks={"<impl calendars::calendar::UnionCal>::holidays": lambda ev_, vals, e: Sym_("union_holidays", *[vkey_(v) for v in vals])}).apply_fn(
+                    gfn, [Rec_("calendars::calendar::NamedCal", {"name": Sym_("field", "name"), "union_cal": Sym_("field", "union_cal")})], 0))
+                okg = vkey_(gotg) == vkey_(Sym_("union_holidays", vkey_(Sym_("field", "union_cal"))))
+            ck.check(r1, "%s::holidays(py)" % ty_, okg, "the holidays handed to Python are not the stored ones: %s" % cel_.vfmt(gotg)[:200], "%s:%d" % (rg["file"], rg["line"]),
+                     sample="all stored holidays" if ty_ == "Cal" else "union_cal.holidays()")
+        except cel_.Unsupported as e_:
+            ck.fail(r1, "%s::holidays(py)" % ty_, "rule could not be established (%s)" % e_, "%s:%d" % (rg["file"], rg["line"]))
+
     # ---------------- tables
     tables, masks = {}, {}
     r2 = ck.rule("R07.2", "for tgt,nyc,fed,ldn,stk,osl,zur: the set of weekday dates in the HOLIDAYS literals the name resolves to equals the set generated "
